@@ -448,7 +448,7 @@ func TestMonitorLatest(t *testing.T) {
 	})
 }
 
-const ruleCadence = "real Cluster with a recording monitor: ping interval 400-800 ms, informer TTL 1-2 s, PublishMetric failing for 0-2 generated runs of 1-3 consecutive informer attempts; observed for 3.5 s; oracle: with at most one failed attempt in between, the next publication of a name comes no later than the previous successfully published one expires; two consecutive attempts are never further apart than half the metric's lifetime plus 400 ms; at the end of the observation the last attempt is no older than that (the loop is alive); ping TTL = 2 x interval; an apparent violation must reproduce in 3 consecutive runs of the same configuration; non-trivial = at least 3 publications per name observed; distinct by configuration"
+const ruleCadence = "real Cluster with a recording monitor and one or two informers: ping interval 400-800 ms, informer TTL 1-2 s, PublishMetric failing for 0-2 generated runs of 1-3 consecutive informer attempts; observed for 3.5 s; oracle: with at most one failed attempt in between, the next publication of a name comes no later than the previous successfully published one expires; two consecutive attempts are never further apart than half the metric's lifetime plus 400 ms; at the end of the observation the last attempt is no older than that (the loop is alive); ping TTL = 2 x interval; an apparent violation must reproduce in 3 consecutive runs of the same configuration; non-trivial = at least 3 publications per name observed; distinct by configuration"
 
 func TestCadence(t *testing.T) {
 	leg := ev.L("cadence", ruleCadence)
@@ -467,11 +467,13 @@ func TestCadence(t *testing.T) {
 			}
 			pos++
 		}
+		// a second informer in half of the cases (a peer usually runs several)
+		extra := rapid.Bool().Draw(t, "secondInformer")
 		var lastMsg string
 		ok := false
 		var npub int
 		for attempt := 0; attempt < 3 && !ok; attempt++ {
-			lastMsg, npub = runCadence(pingMs, ttlMs, failAt)
+			lastMsg, npub = runCadence(pingMs, ttlMs, failAt, extra)
 			ok = lastMsg == ""
 			if !ok {
 				leg.Note("attempt %d: %s", attempt, lastMsg)
@@ -480,17 +482,21 @@ func TestCadence(t *testing.T) {
 		if !ok {
 			t.Fatalf("3 consecutive runs: %s (ping interval %d ms, informer TTL %d ms, failing informer attempts %v)", lastMsg, pingMs, ttlMs, failAt)
 		}
-		leg.Case(fmt.Sprintf("ping=%dms ttl=%dms fail=%v", pingMs, ttlMs, failAt), npub >= 3)
+		leg.Case(fmt.Sprintf("ping=%dms ttl=%dms fail=%v second-informer=%v", pingMs, ttlMs, failAt, extra), npub >= 3)
 	})
 }
 
-func runCadence(pingMs, ttlMs int, failAt map[int]bool) (string, int) {
+func runCadence(pingMs, ttlMs int, failAt map[int]bool, extra bool) (string, int) {
 	infAttempts := 0
-	f := fakes.NewCluster(fakes.ClusterOpts{Key: gen.PeerKeys[1], InformerTTL: time.Duration(ttlMs) * time.Millisecond, Mutate: func(cfg *ipfscluster.Config) {
+	var extras []string
+	if extra {
+		extras = []string{"extra"}
+	}
+	f := fakes.NewCluster(fakes.ClusterOpts{Key: gen.PeerKeys[1], ExtraInformers: extras, InformerTTL: time.Duration(ttlMs) * time.Millisecond, Mutate: func(cfg *ipfscluster.Config) {
 		cfg.MonitorPingInterval = time.Duration(pingMs) * time.Millisecond
 	}, BeforeStart: func(m *fakes.Monitor) {
 		m.FailPub = func(n int, mt *api.Metric) error {
-			if mt.Name == "ping" {
+			if mt.Name != "boot" {
 				return nil
 			}
 			infAttempts++
@@ -560,8 +566,14 @@ func runCadence(pingMs, ttlMs int, failAt map[int]bool) (string, int) {
 			return fmt.Sprintf("metric %q: last publish attempt %v before the end of the observation, its lifetime is %v: the peer stopped republishing", name, idle.Round(time.Millisecond), life), 0
 		}
 	}
-	if len(by) < 2 {
-		return fmt.Sprintf("only %d metric names published in 3.5 s", len(by)), 0
+	want := []string{"ping", "boot"}
+	if extra {
+		want = append(want, "extra")
+	}
+	for _, n := range want {
+		if len(by[n]) == 0 {
+			return fmt.Sprintf("metric %q was never published by the running peer in 3.5 s", n), 0
+		}
 	}
 	return "", minPubs
 }
